@@ -266,6 +266,21 @@ func cmdDriveRwValue(args []string) error {
 		} else {
 			v = rcs[rnd.Intn(len(rcs))] + ";" + rrs[rnd.Intn(len(rrs))] + ";" + vals[rnd.Intn(len(vals))]
 		}
+		if rnd.Intn(25) == 0 {
+			// values around and beyond the sizes wire formats care about (63-byte labels, 255-byte strings and names)
+			size := []int{62, 63, 64, 254, 255, 256, 257, 300, 511, 700}[rnd.Intn(10)]
+			long := make([]byte, size)
+			for i := range long {
+				long[i] = "abcdefghijklmnopqrstuvwxyz0123456789.- "[rnd.Intn(39)]
+				if i%40 == 39 && rnd.Intn(2) == 0 {
+					long[i] = '.'
+				}
+			}
+			v = rcs[rnd.Intn(3)] + ";" + rrs[rnd.Intn(10)] + ";" + string(long)
+			if rnd.Intn(3) == 0 {
+				v = string(long)
+			}
+		}
 		if rnd.Intn(2) == 0 {
 			v = mutateBytes(rnd, v)
 		}
